@@ -6,6 +6,7 @@ import (
 	"bytes"
 	"context"
 	"errors"
+	"net"
 	"net/netip"
 	"os"
 	"sync/atomic"
@@ -21,6 +22,7 @@ import (
 
 // sessionUplinkMmsg is used for passing information about relay uplink to the relay goroutine.
 type sessionUplinkMmsg struct {
+	state          *atomic.Pointer[net.UDPConn]
 	csid           uint64
 	clientName     string
 	natConn        *conn.MmsgWConn
@@ -374,6 +376,7 @@ func (s *UDPSessionRelay) recvFromServerConnRecvmmsg(ctx context.Context, lnc *u
 
 					s.wg.Go(func() {
 						s.relayServerConnToNatConnSendmmsg(ctx, sessionUplinkMmsg{
+							state:          &entry.state,
 							csid:           csid,
 							clientName:     clientInfo.Name,
 							natConn:        natConn.NewWConn(),
@@ -556,6 +559,13 @@ main:
 				zap.Duration("natTimeout", uplink.natTimeout),
 				zap.Error(err),
 			)
+		}
+
+		// Stop moves the deadline into the past to end the session. If that happened just
+		// before the deadline was pushed out again above, redo it, or the downlink
+		// goroutine would keep the service from stopping for a whole NAT timeout.
+		if uplink.state.Load() != uplink.natConn.UDPConn {
+			_ = uplink.natConn.SetReadDeadline(conn.ALongTimeAgo)
 		}
 
 		qpvecn := qpvec[:count]
